@@ -28,8 +28,8 @@ RULE = ("case = (method, constraint-kind assignment, mask/options variant); non-
 ASSUMPTIONS = ["test points closer than 1e-7 to a constraint boundary are skipped", "a problem without any finite variable bound may be passed with bounds=None"]
 EXHAUSTIVE = {"quick": True, "thorough": True}
 BOUNDS = {"quick": {"max_nonlinear": 2, "max_linear": 2}, "thorough": {"max_nonlinear": 3, "max_linear": 3}}
-REQUIRED = {"quick": {"captured_problems": 1861, "points_compared": 38084, "jacobians_checked": 3000, "max_iterations_checked": 1000, "rejected_combinations": 2000, "masked_problems": 800, "options_not_dict_checked": 500, "option_plumbing_cases": 80, "with_output_directory": 500, "linear_rows_with_identical_coefficients": 150, "__nontrivial__": 1861},
-            "thorough": {"captured_problems": 47338, "points_compared": 1193908, "jacobians_checked": 100000, "max_iterations_checked": 30000, "rejected_combinations": 100000, "masked_problems": 30000, "options_not_dict_checked": 15000, "option_plumbing_cases": 800, "with_output_directory": 12000, "linear_rows_with_identical_coefficients": 4000, "__nontrivial__": 45000}}
+REQUIRED = {"quick": {"captured_problems": 1861, "points_compared": 38084, "jacobians_checked": 3000, "max_iterations_checked": 1000, "rejected_combinations": 2000, "masked_problems": 800, "options_not_dict_checked": 500, "option_plumbing_cases": 80, "with_output_directory": 500, "linear_rows_with_identical_coefficients": 150, "constraint_support_of_the_receiving_method_checked": 1100, "__nontrivial__": 1861},
+            "thorough": {"captured_problems": 47338, "points_compared": 1193908, "jacobians_checked": 100000, "max_iterations_checked": 30000, "rejected_combinations": 100000, "masked_problems": 30000, "options_not_dict_checked": 15000, "option_plumbing_cases": 800, "with_output_directory": 12000, "linear_rows_with_identical_coefficients": 4000, "constraint_support_of_the_receiving_method_checked": 20000, "__nontrivial__": 45000}}
 METHODS = ["slsqp", "cobyla", "l-bfgs-b", "tnc", "nelder-mead", "powell", "bfgs", "cg", "newton-cg", "differential_evolution", "scipy/default"]
 KINDS = ["eq", "lower", "upper", "two", "free"]
 V = 3
@@ -228,6 +228,16 @@ def run_case(case, obs):
     kw, name = captured["kw"], captured["name"]
     if mask is not None:
         obs.count("masked_problems")
+    if name == "minimize":
+        # SciPy's own rule (scipy/optimize/_minimize.py): every method but these ignores the constraints argument with a
+        # warning - a configured restriction handed to such a method is a restriction dropped
+        sm = str(kw.get("method", "")).lower()
+        cons = kw.get("constraints") or []
+        cons = [cons] if isinstance(cons, dict) or not isinstance(cons, (list, tuple)) else list(cons)
+        obs.count("constraint_support_of_the_receiving_method_checked")
+        if cons and sm not in ("cobyla", "cobyqa", "slsqp", "trust-constr"):
+            obs.violation("constraints_handed_to_a_method_that_ignores_them", method=sm, constraints=len(cons), mask=mask)
+            return
     # ---- lengths: only the free variables are exposed
     x0c = np.asarray(kw.get("x0"))
     if x0c.shape != (nfree,) or not np.array_equal(x0c, x0[free]):
